@@ -191,7 +191,13 @@ def execute(case):
         """(ts argument or None, instant the model is evaluated at is decided after the call)"""
         if ev.get("client") is None:
             return None
-        return wall.t + timedelta(seconds=case["clients"][ev["client"]])
+        t_ = wall.t + timedelta(seconds=case["clients"][ev["client"]])
+        if ev.get("tz") is not None:
+            # the client hands over an AWARE datetime: what counts is its own wall-clock
+            # reading (its fields), not the UTC instant
+            from datetime import timezone
+            t_ = t_.replace(tzinfo=timezone(timedelta(minutes=ev["tz"])))
+        return t_
 
     saved_dt = mod.datetime
     mod.datetime = wall.datetime_class()
@@ -261,7 +267,7 @@ def execute(case):
                         viol(prop + ".clock-reads", "explicit-ts:clock-read",
                              "event %d %r: a call with explicit reference time %s read the host "
                              "clock (%s)" % (i, form["s"], ts_arg, reads[0][1]))
-                    instant = ts_arg
+                    instant = ts_arg.replace(tzinfo=None)
                 t_min, t_max = min(t_min, instant), max(t_max, instant)
                 obs.append([i, form["s"], fmt_ts(instant), got if exc is None else exc])
                 want = expected(lib, form, instant, latent)
@@ -282,7 +288,8 @@ def execute(case):
                     # is a full un-truncated search)
                     pk = (form["t"], kind)
                     if pk not in probed:
-                        got0 = _unlimited(lib, form["s"], instant, latent)
+                        got0 = _unlimited(lib, form["s"],
+                                          ts_arg if ts_arg is not None else instant, latent)
                         probed[pk] = got0 is not None and _same(got0, want, form, instant)
                     if probed[pk]:
                         kind = "lost-by-depth-limit"
@@ -418,7 +425,9 @@ def _two_digit_ok(form, ts):
         # month-name notation of the same date windows it - kept in the workload (for
         # instants where the window says 19yy) so that the disagreement is reported
         return 2000 <= ts.year <= 2089 and (y % 100) >= (ts.year % 100) + 10
-    return 2000 <= ts.year <= 2099 and (y % 100) < (ts.year % 100) + 10
+    # 20yy written as dd.mm.yy: the numeric pattern does not look at the clock at all, so
+    # it is asked at every reference time (only the month-name notation windows the year)
+    return True
 
 
 def _military_excluded(form, ts):
@@ -524,7 +533,10 @@ def _session(prop, rng, n_req):
             evs.append({"ev": "step", "h": h, "n": 100000})
             h += 1
         else:
-            evs.append({"ev": "parse", "form": f, "client": client, "latent": latent})
+            pe = {"ev": "parse", "form": f, "client": client, "latent": latent}
+            if client is not None and rng.random() < 0.15:
+                pe["tz"] = rng.choice([120, -480, 330, 60, 0, 720])
+            evs.append(pe)
             if rng.random() < 0.15:
                 # the same question again a little earlier / later on the same day (an answer
                 # remembered per text or per reference *day* is wrong as soon as the hour matters)
